@@ -48,8 +48,8 @@ func checkRunTraces(c *core.Ctx, worker string, ps []*gen.Project, cfg string, s
 		if tr == nil {
 			continue
 		}
-		if tr.Violated == "InRange" {
-			c.Machineryf("run %s: a value did not fit the fixed-point projection at line %d: %v", tr.Case.P.Name, tr.Line, tr.Event["outofrange"])
+		if tr.Violated == "InRange" || tr.Violated == "InRangeN" {
+			c.Machineryf("run %s: a value did not fit the fixed-point projection at line %d: %v %v", tr.Case.P.Name, tr.Line, tr.Event["outofrange"], tr.Event["outofrangeN"])
 		} else if tr.Violated != "" {
 			rd := saveProjectReplay(c, tr, cfg, nil)
 			what := fmt.Sprintf("%s violated in run %s at trace line %d (%s, date %s)", tr.Violated, tr.Case.P.Name, tr.Line, eventSummary(tr.Event), dayText(tr.Event["zeit"]))
